@@ -116,7 +116,7 @@ def spell_value(rng, parts, path, plain=False):
     out = ""
     for i, (k, t) in enumerate(parts):
         if k == "lit":
-            for ch in t:
+            for ci, ch in enumerate(t):
                 if ch == "$":
                     out += "$$"
                 elif ch == " " and path:
@@ -127,8 +127,12 @@ def spell_value(rng, parts, path, plain=False):
                     out += "$ "       # a leading space would be skipped
                 else:
                     out += ch
-                if not plain and rng.random() < 0.03:
-                    out += "$\n" + " " * rng.randint(0, 3)
+                last_char = (ci == len(t) - 1)
+                if not plain and rng.random() < 0.03 and not (path and last_char) and not (last_char and i == len(parts) - 1):
+                    # a continuation inside the text; what follows it must not be a (significant) space
+                    nxt_ch = t[ci + 1] if not last_char else ""
+                    if nxt_ch != " ":
+                        out += "$\n" + " " * rng.randint(0, 3)
         else:
             nxt = ""
             if i + 1 < len(parts) and parts[i + 1][0] == "lit":
@@ -217,6 +221,8 @@ def canon_py(p):
     """lexical canonicalisation for the simple paths the generator produces"""
     if p == "":
         return None
+    if p.startswith("/") and ".." in p.split("/"):
+        return "?"          # n2 keeps "/.." lexically; not predicted here (covered by C13)
     trail = p.endswith("/") and p != "/"
     n = posixpath.normpath(p)
     if p.startswith("//") and not p.startswith("///"):
@@ -321,7 +327,14 @@ def expected(stmts, files, ninja_include=True):
             elif s[0] == "default":
                 for p in s[1]:
                     v = expand(p, [scope])
-                    res["defaults"].append(canon_py(v))
+                    if v == "":
+                        res["error"] = "empty path"
+                        return
+                    c = canon_py(v)
+                    if c == "?":
+                        res["error"] = "unpredictable"
+                        return
+                    res["defaults"].append(c)
             elif s[0] in ("include", "subninja"):
                 child = dict(scope)
                 run(files[s[1]], child, s[1])
